@@ -6,49 +6,63 @@ Local Open Scope nat_scope.
 
 
 Lemma loginv_init c : LogInv c (init c).
-Proof. exists 0, 0, 0. cbn. rewrite andb_false_r. reflexivity. Qed.
+Proof. exists 0, 0, 0, 0. cbn. rewrite andb_false_r. reflexivity. Qed.
 
 Lemma loginv_step c s i : Inv c s -> LogInv c s -> enabled s i = true -> LogInv c (fst (tstep c s i)).
 Proof.
-  intros I (t1 & t2 & t3 & L) E. unfold tstep, enabled in *.
-  destruct I as [I1 I2 I3 I4 I5 I6 I7 I8 I9 I10 I11 I12 Itok Iph IphB Iowc Ip4 Irp Ioht Iocc I13 Ioh Iop0 Idec Iow0 Iow1 Iow2 I14 I15 I16 I17 I18 I19 I20 I21 I22 I23 I24 I25 I26 I27 I28 I29 I30 I31 I32 I33 I34 I35].
-  clear I1 I3 I5 I7 I8 I21 I22 I23 I24 I25 I26 I27 I28 I29 I30 I31 I32 I33 I34 I35 Iowc Ip4 Irp Ioht Iocc Iow0 Iow1 Iow2 Iop0 Idec Ioh I13.
+  intros I (t1 & t2 & t3 & t4 & L) E. unfold tstep, enabled in *.
+  destruct I as [I1 I2 I3 I4 I5 I6 I7 I8 I9 I10 I11 I12 Itok Iph IphB Iowc Ip4 Irp Ioht Iocc I13 Ioh Iop0 Idec Iow0 Iow1 Iow2 I14 I15 I16 I17 I18 I19 I20 I21 I22 I23 I24 I25 I26 I27 I28 I29 I30 I31 I32 I33 I34 I35 Jcfg J1 J2 J3 J20 J21 J4 J5 J6 J7 Jx0 Jx1 Jx2 Jxc].
+  clear I1 I3 I5 I7 I8 I21 I22 I23 I24 I25 I26 I27 I28 I29 I30 I31 I32 I33 I34 I35 Iowc Ip4 Irp Ioht Iocc Iow0 Iow1 Iow2 Iop0 Idec Ioh I13 J1 J3 J21 J5 J7 Jx0 Jx1 Jx2 Jxc.
   unfold N, expected in *.
   assert (CV : cv c <= 1) by (unfold cv, b2n; destruct (is_conv c); lia).
   assert (NF1 : nfire s <= 1) by (destruct (slot s); cbn [rdy] in I6; lia).
   assert (CVN : cv c * nfire s <= nfire s) by (unfold cv, b2n; destruct (is_conv c); lia).
   assert (CVN2 : cv c * nfire s <= cv c) by (unfold cv, b2n; destruct (is_conv c); lia).
+  assert (RE1 : re c <= 1) by (unfold re; destruct (c_re c); lia).
+  assert (REN : re c * nfire s <= nfire s) by (unfold re; destruct (c_re c); lia).
+  assert (REN2 : re c * nfire s <= re c) by (unfold re; destruct (c_re c); lia).
   unfold LogInv, expected.
   destruct i as [|[|[|i]]]; cbn [thr] in *; [| | |discriminate].
   all: dth s.
-  all: destruct ins; unfold exec, fire, deliver.
+  all: destruct ins; unfold exec, fire, fire2, deliver.
   all: red1; dflags s; red1.
-  all: try (exists t1, t2, t3; exact L).
+  all: try (exists t1, t2, t3, t4; exact L).
   all: redch.
-  (* a successful claim changes the payload, but nothing has been logged yet *)
+  (* a successful claim changes a payload, but nothing of that operation has been logged yet *)
   all: try (specialize (I20 eq_refl); rewrite I20 in *; cbn [isv] in *;
             assert (NF : nfire s = 0) by lia; assert (NC : nconv s = 0) by lia; assert (ND : ndeliv s = 0) by lia;
-            rewrite NF, NC, ND in *; cbn [Nat.eqb andb app] in *; rewrite andb_false_r in *;
-            exists 0, 0, 0; exact L).
+            assert (NF2 : nfire2 s = 0) by lia;
+            rewrite NF, NC, ND, NF2 in *; cbn [Nat.eqb andb app] in *; rewrite andb_false_r in *;
+            exists 0, 0, 0, 0; exact L).
+  all: try (assert (NF2 : nfire2 s = 0) by (destruct (slot2 s); cbn [rdy] in *; lia); rewrite NF2 in *; cbn [Nat.eqb] in *;
+            exists t1, t2, t3, 0; exact L).
   all: try (dpay s; red1; dflags s; red1; redch).
   all: try match goal with g : bool |- _ => destruct g; red1 end.
-  all: try (exists t1, t2, t3; exact L).
+  all: try (exists t1, t2, t3, t4; exact L).
   (* completions that do not log a callback *)
-  all: try (unfold atomic_cb in *; rewrite AD in *; cbn [has_cb andb] in *; exists t1, t2, t3; exact L).
+  all: try (unfold atomic_cb in *; rewrite AD in *; cbn [has_cb andb] in *; exists t1, t2, t3, t4; exact L).
   (* completions with a user callback *)
   all: try (assert (NF : nfire s = 0) by lia; rewrite NF in *; cbn [Nat.eqb andb] in *;
-            rewrite Nat.mul_0_r in I10; assert (FR : frees s = 0) by lia;
+            rewrite Nat.mul_0_r in *; assert (FR : frees s = 0) by lia;
+            assert (NF2 : nfire2 s = 0) by lia; rewrite NF2 in *; cbn [Nat.eqb] in *;
             rewrite andb_false_r in L; rewrite andb_true_r;
-            exists t1, t2, (S (clk s)); rewrite L; rewrite <- !app_assoc; cbn [app];
+            exists t1, t2, (S (clk s)), t4; rewrite L; rewrite !app_nil_r; rewrite <- !app_assoc; cbn [app];
             unfold atomic_cb, cb_log, hb; rewrite AD, I9, FR; unfold hb; rewrite AD; reflexivity).
+  (* the handler's second run *)
+  all: try (assert (R1 : re c = 1) by lia; specialize (Jcfg R1);
+            assert (NF2 : nfire2 s = 0) by lia; rewrite NF2 in *; cbn [Nat.eqb] in *;
+            unfold hb in *; rewrite Jcfg in *; cbn [has_helper b2n Nat.mul] in *;
+            assert (FR : frees s = 0) by lia;
+            exists t1, t2, t3, (S (clk s)); rewrite L, I9, FR; rewrite !app_nil_r; rewrite <- !app_assoc; reflexivity).
   (* deliveries and conversions: only the converter adapter has them *)
   all: assert (CV1 : cv c = 1) by lia.
   all: unfold cv, is_conv, atomic_cb in *; destruct (c_ad c) eqn:AD; try discriminate; cbn [has_cb andb b2n Nat.mul] in *.
+  all: assert (RE0 : re c = 0) by (unfold re in *; destruct (c_re c); [specialize (Jcfg eq_refl); discriminate Jcfg | reflexivity]).
+  all: rewrite RE0 in *; cbn [Nat.mul] in *; assert (NF2 : nfire2 s = 0) by lia; rewrite NF2 in *; cbn [Nat.eqb] in *.
   all: try (assert (ND : ndeliv s = 0) by lia; assert (OP : opayload s = conv_result c (payload s)) by (apply I17; lia);
-            rewrite ND, OP in *; cbn [Nat.eqb] in *; exists t1, (S (clk s)), t3; rewrite L, !app_nil_r; reflexivity).
+            rewrite ND, OP in *; cbn [Nat.eqb] in *; exists t1, (S (clk s)), t3, t4; rewrite L, !app_nil_r; reflexivity).
   all: try (assert (NC : nconv s = 0) by (cbn [isv] in I18; lia);
             assert (ND : ndeliv s = 0) by lia;
-            rewrite NC, ND in *; cbn [Nat.eqb app] in *; exists (S (clk s)), t2, t3; rewrite L;
+            rewrite NC, ND in *; cbn [Nat.eqb app] in *; exists (S (clk s)), t2, t3, t4; rewrite L;
             unfold conv_log; cbn [app map]; reflexivity).
 Qed.
-
